@@ -23,11 +23,59 @@ import time
 ROOT = os.path.dirname(os.path.dirname(os.path.abspath(__file__)))
 CACHE = os.path.join(ROOT, '.cache')
 WORK = os.path.join(CACHE, 'work', 'repo')
+# content-based sync WITHOUT preserving mtimes: a file whose content changed gets a fresh mtime, so that cargo's
+# mtime-based fingerprints rebuild it (with `rsync -a`, going back from an edited tree to the original one restores
+# *older* mtimes and cargo would silently reuse the stale artefacts of the edited tree)
+RSYNC = ['rsync', '-rlpgoD', '--checksum', '--delete', '--exclude', 'target', '--exclude', '.git']
+
+
+def _tree_hash(root):
+    import hashlib
+    h = hashlib.sha256()
+    for base in ('crates', 'bin', 'Cargo.toml', 'Cargo.lock', 'examples'):
+        p = os.path.join(root, base)
+        if os.path.isfile(p):
+            h.update(base.encode()); h.update(open(p, 'rb').read())
+            continue
+        for d, dirs, files in sorted(os.walk(p)):
+            dirs.sort()
+            if 'target' in dirs:
+                dirs.remove('target')
+            for f in sorted(files):
+                fp = os.path.join(d, f)
+                h.update(os.path.relpath(fp, root).encode())
+                try:
+                    h.update(open(fp, 'rb').read())
+                except OSError:
+                    pass
+    return h.hexdigest()
+
+
+def _sync(repo, work):
+    """content-based sync; whenever the synced tree differs from the tree the artefacts of this scratch copy were last
+    built from, every source file gets a fresh mtime so that cargo (mtime fingerprints) rebuilds the workspace crates."""
+    os.makedirs(os.path.dirname(work), exist_ok=True)
+    subprocess.run(RSYNC + [repo.rstrip('/') + '/', work + '/'], check=True)
+    state = work + '.treehash'
+    cur = _tree_hash(work)
+    prev = open(state).read().strip() if os.path.exists(state) else ''
+    if cur != prev:
+        now = time.time()
+        for base in ('crates', 'bin'):
+            for d, dirs, files in os.walk(os.path.join(work, base)):
+                if 'target' in dirs:
+                    dirs.remove('target')
+                for f in files:
+                    try:
+                        os.utime(os.path.join(d, f), (now, now))
+                    except OSError:
+                        pass
+        with open(state, 'w') as f:
+            f.write(cur)
 
 
 def sync_repo(repo):
-    os.makedirs(os.path.dirname(WORK), exist_ok=True)
-    subprocess.run(['rsync', '-a', '--delete', '--exclude', 'target', '--exclude', '.git', repo.rstrip('/') + '/', WORK + '/'], check=True)
+    _sync(repo, WORK)
 
 
 def parse_header(path):
@@ -189,8 +237,7 @@ def load_kani_groups():
 
 
 def kani_setup(repo, groups):
-    os.makedirs(os.path.dirname(KANI_WORK), exist_ok=True)
-    subprocess.run(['rsync', '-a', '--delete', '--exclude', 'target', '--exclude', '.git', repo.rstrip('/') + '/', KANI_WORK + '/'], check=True)
+    _sync(repo, KANI_WORK)
     for g in groups:
         for d in g['files']:
             path = os.path.join(ROOT, 'kani', d)
